@@ -281,6 +281,23 @@ class Repo:
                         set_parents(alias)
                         alias._parent = None
                         c.methods[a0] = alias
+                    lam = target if isinstance(target, ast.Lambda) else (v0 if isinstance(v0, ast.Lambda) else None)
+                    if lam is not None and a0 not in c.methods and not lam.args.vararg and not lam.args.kwarg:
+                        # `name = staticmethod(lambda ...: e)` (or a plain lambda, then an instance method): a method whose body returns e
+                        fd = ast.FunctionDef(name=a0, args=clone(lam.args), body=[ast.Return(value=clone(lam.body))],
+                                             decorator_list=[ast.Name(id="staticmethod", ctx=ast.Load())] if target is lam else [], returns=None, type_comment=None)
+                        try:
+                            fd.type_params = []
+                        except Exception:
+                            pass
+                        ast.copy_location(fd, v0)
+                        ast.copy_location(fd.body[0], lam.body)
+                        ast.fix_missing_locations(fd)
+                        fd.end_lineno = getattr(v0, "end_lineno", getattr(v0, "lineno", None))
+                        fd._cls, fd._module = c, m
+                        set_parents(fd)
+                        fd._parent = None
+                        c.methods[a0] = fd
         for m in self.modules.values():          # nested functions belong to the module (and class) of the function they are written in
             for n0 in ast.walk(m.tree):
                 if isinstance(n0, ast.FunctionDef) and getattr(n0, "_module", None) is None:
